@@ -3,7 +3,7 @@ import itertools
 
 from baize.asgi import RedirectResponse as AsgiRedirect
 from baize.asgi import Response as AsgiResponse
-from baize.datastructures import MutableHeaders
+from baize.datastructures import Headers, MutableHeaders
 from baize.responses import iri_to_uri
 from baize.wsgi import RedirectResponse as WsgiRedirect
 from baize.wsgi import Response as WsgiResponse
@@ -126,9 +126,14 @@ def apply_op_(h, tok):
         if tag == "A":
             h.append(a[0], a[1])
             return "ok"
-        if tag in ("U", "Ud"):
+        if tag in ("U", "Ud", "Uh", "Um"):
             pairs = [(a[i], a[i + 1]) for i in range(0, len(a) - 1, 2)]
-            h.update(dict(pairs) if tag == "Ud" else pairs)
+            if tag == "Uh":      # the other mapping is itself a Headers object (constructor: unchecked)
+                h.update(Headers(pairs))
+            elif tag == "Um":    # ... or a MutableHeaders object
+                h.update(MutableHeaders(pairs))
+            else:
+                h.update(dict(pairs) if tag == "Ud" else pairs)
             return "ok"
         if tag == "F":
             return "=" + enc(h.setdefault(a[0], a[1]))
@@ -234,7 +239,7 @@ def judge_ops(tokens, outs, init_clean):
             if init_clean:
                 return "after %s the mapping holds a CR, LF or NUL" % tag
             res = res[:-1]
-        if tag in ("S", "A", "U", "Ud") and any(has_ctl(s) for s in a):
+        if tag in ("S", "A", "U", "Ud", "Uh", "Um") and any(has_ctl(s) for s in a):
             # update: the first offending pair raises; pairs before it are stored (they are clean)
             if res != "ValueError":
                 return "%s with a control character answered %r instead of ValueError" % (tag, res)
@@ -412,6 +417,9 @@ def rand_op(rng, latin1=False):
     if m < 0.6:
         pairs = [(rand_str(rng, KEYS, latin1), rand_str(rng, VALS, latin1)) for _ in range(rng.randrange(0, 4))]
         distinct = len({p[0] for p in pairs}) == len(pairs)
+        lower_distinct = len({p[0].lower() for p in pairs}) == len(pairs) and all(p[0] == p[0].lower() for p in pairs)
+        if lower_distinct and rng.random() < 0.4:
+            return mk_pairs(rng.choice(["Uh", "Um"]), pairs)
         return mk_pairs("Ud" if distinct and rng.random() < 0.5 else "U", pairs)
     if m < 0.72:
         return mk_op("F", k, v)
@@ -462,7 +470,9 @@ def cases(rng, tier):
     small = ([mk_op(t, k, v) for t in ("S", "A", "F") for k in ("a", "A", "b\r") for v in ("1", "2\n")]
              + [mk_op("D", "a"), mk_op("P", "A"), mk_op("P", "b", "d\0"), "I", "C",
                 mk_pairs("U", [("a", "1"), ("b", "2\r"), ("c", "3")]), mk_pairs("U", [("A", "x"), ("a", "y")]),
-                mk_pairs("Ud", [("b\n", "1")]), mk_pairs("U", [])])
+                mk_pairs("Ud", [("b\n", "1")]), mk_pairs("U", []),
+                mk_pairs("Uh", [("x-trace", "abc\r\nset-cookie: sid=evil")]), mk_pairs("Um", [("c", "ok"), ("d\n", "1")]),
+                mk_pairs("Uh", [("e", "fine")])])
     for n in range(1, 4 if thorough else 3):
         for seq in itertools.product(small, repeat=n):
             yield "hdr_seq N " + " ".join(seq)
